@@ -13,6 +13,7 @@ mod codec;
 mod eqhash;
 mod replace;
 mod rng;
+mod wildmap;
 
 fn main() {
   let args: Vec<String> = std::env::args().collect();
@@ -27,6 +28,8 @@ fn main() {
     "replay-dec" => codec::replay_dec(&args[2]),
     "search-eqhash" => eqhash::search(&args[2..]),
     "replay-eqhash" => eqhash::replay(&args[2]),
+    "search-wildmap" => wildmap::search(&args[2..]),
+    "replay-wildmap" => wildmap::replay(&args[2]),
     "search-replace" => replace::search(&args[2..]),
     "replay-replace" => replace::replay(&args[2]),
     _ => { eprintln!("usage: twin search-enc|search-lines|search-dec|search-replace <seed> <budget> | replay-* <witness>"); 2 }
